@@ -25,12 +25,35 @@ def check_reader(res, E):
         st.mem[base + ("disc",)] = left_disc
         st.mem[base + (("v", "Some"), ("f", 0))] = left
 
+    buflen = z3.BitVec("caller_buffer_len", 64)
+    at_eof = z3.Bool("inner_stream_at_eof")
+    E.solver.add(z3.ULT(buflen, 1 << 40))
+    inner_len = []
+
     def m_inner(E_, st, frame, callee, argvals, dest_ty):
+        # io::Read contract: at most as many bytes as the buffer holds; 0 exactly for an empty buffer or at the end
+        b = argvals[1].get(("nbv",))
+        if mir.is_z(b):
+            inner_len.append(b)
+            st.cond.append(z3.Implies(inner_err == 0, z3.And(z3.ULE(chunk, b), (chunk == 0) == z3.Or(b == 0, at_eof))))
         return {("disc",): inner_err, (("v", "Ok"), ("f", 0)): chunk,
                 (("v", "Err"), ("f", 0)): mir.Opq("io::Error", "inner")}
 
-    paths = E.explore(body, max_visits=2, arg_values={"_1": {(): selfp}}, pre=pre,
-                      models={r"^<R as (std::io::)?Read>::read$": m_inner},
+    def m_index_to(E_, st, frame, callee, argvals, dest_ty):
+        sl, end = argvals[0], argvals[1].get((("f", 0),))
+        if not mir.is_z(sl.get(("nbv",))) or not mir.is_z(end):
+            return NotImplemented
+        st.cond.append(z3.ULE(end, sl[("nbv",)]))       # otherwise the real code panics
+        return {(): mir.Opq("&mut [u8]", "subslice"), ("nbv",): end}
+
+    def m_slice_len(E_, st, frame, callee, argvals, dest_ty):
+        v = E_._through_ref(st, argvals[0]).get(("nbv",))
+        return {(): v} if mir.is_z(v) else NotImplemented
+
+    paths = E.explore(body, max_visits=2, arg_values={"_1": {(): selfp}, "_2": {(): mir.Opq("&mut [u8]", "buf"), ("nbv",): buflen}}, pre=pre,
+                      models={r"^<R as (std::io::)?Read>::read$": m_inner,
+                              r"^<\[u8\] as (std::ops::)?IndexMut<(std::ops::)?RangeTo<usize>>>::index_mut$": m_index_to,
+                              r"^core::slice::<impl \[u8\]>::len$": m_slice_len},
                       noop=[r"ToString::to_string$", r"Error::other", r"io::Error::other"])
     n = 0
     kinds = {}
@@ -61,8 +84,15 @@ def check_reader(res, E):
             bad.append(("budget-after-overrun", z3.And(inner_ok, left_disc == 1, z3.Not(fits),
                                                         z3.Not(z3.And(new_disc == 1, new_left == 0)))))
             bad.append(("unlimited-stays-unlimited", z3.And(left_disc == 0, new_disc != 0)))
+        # a caller with room in its buffer is told "end of data" (Ok(0)) only at the end of the inner stream:
+        # otherwise read_to_end accepts a truncated object
+        if okv is not None and mir.is_z(okv):
+            bad.append(("premature-end-of-data", z3.And(d == 0, okv == 0, buflen != 0, z3.Not(at_eof), inner_ok)))
         for name, b in bad:
             m = E.model(p.cond, b)
+            if m is not None and native_reader(res) is False:
+                res.inconclusive.append("reader step '%s' violated in the model but the native reader sweep passes" % name)
+                m = None
             if m is not None:
                 fn = mprop.write_cex(res, "reader_%s_%d" % (name, i), p, E,
                                      "LimitedDataRead::read step violates '%s' (left=%s chunk=%s)" %
@@ -179,3 +209,16 @@ def run(res, tier):
     res.rule = ("one case = one feasible returning MIR path; z3 queries compare the step result / budget update / "
                 "refusal decision with the reference on 64-bit bit-vectors; evaluations = z3 queries")
     mprop.finish_engine(res, E)
+
+
+_NATIVE = {}
+
+
+def native_reader(res):
+    if "r" not in _NATIVE:
+        import nativetest
+        failed, passed, out = nativetest.run_native_test("native_c38", "c38_native_reader_limit")
+        obs = re.findall(r"C38-NATIVE (.*)", out)
+        res.extra.setdefault("native_replays", []).append({"test": "c38_native_reader_limit", "failed": failed, "observed": obs[:2] or [out[-300:]]})
+        _NATIVE["r"] = True if failed else (False if passed else None)
+    return _NATIVE["r"]
